@@ -155,6 +155,7 @@ class Check(PropertyCheck):
         return {"MitmVerif/Gen/C32.lean": src}
 
     def setup(self, tier):
+        self.known_selftest()
         # the codec law assumed by the theorems, checked on the pool used as charset parameters
         samples = ["", "a", "é", "ÿþab", "﻿x", "中文", "€", "\U0001f600", "a\x00b", "~{", "+-", "ß"]
         for n in CHARSETS:
@@ -345,6 +346,29 @@ class Check(PropertyCheck):
         # F-C32b exactly: no usable charset parameter in the header, and the written body carries a declaration the reader scans for
         return "F-C32b" if self._decl_in_body(uncps(obs["ct2"]) if obs["ct2"] else "", body) else None
 
+    def known_selftest(self):
+        """near-miss triples for F-C32a/b/c (frozen observations: independent of the tree under test)"""
+        O = lambda ct2, body, chosen, seen: {"set": "ok", "ct2": cps(ct2) if ct2 is not None else None, "content_hex": hx(body), "chosen": chosen,
+                                             "seen": seen, "strict": "ok -", "loose": "ok -", "n_ct_headers": 1}
+        C = lambda ct, t: {"k": "rt", "msg": "resp", "ct": ct, "text": cps(t)}
+        R = "roundtrip: x"
+        T = [
+            (C("text/plain", "ÿþab"), O("text/plain", b"\xff\xfeab", "latin-1", "utf-16le"), R, "F-C32a"),
+            (C("text/plain", "ÿþab"), O("text/plain", b"\xff\xfeab", "latin-1", "cp1252"), R, None),        # BOM there, but the reader took another codec
+            (C("text/plain", "xÿþ"), O("text/plain", b"x\xff\xfe", "latin-1", "utf-16le"), R, None),        # no BOM at the start
+            (C("text/plain", "ÿþab"), O("text/plain", b"\xff\xfeab", "latin-1", "utf-16le"), "charset: x", None),   # other clause
+            (C("text/html", '<meta charset="latin-1">é'), O("text/html", b'<meta charset="latin-1">\xc3\xa9', "utf8", "latin-1"), R, "F-C32b"),
+            (C("text/html; charset=gb2312", "―"), O("text/html; charset=gb2312", b"\xa1\xaa", "gb2312", "gb18030"), R, None),   # c32-3: no declaration
+            (C("text/plain", '<meta charset="latin-1">é'), O("text/plain", b'<meta charset="latin-1">\xc3\xa9', "utf8", "latin-1"), R, None),  # not scanned
+            (C("text/html; charset=utf-8", '<meta charset="latin-1">é'), O("text/html; charset=utf-8", b'<meta charset="latin-1">\xc3\xa9', "utf-8", "latin-1"), R, None),
+            (C("text/plain; charset=utf-16", "hi"), O("text/plain; charset=utf-16", b"\xff\xfeh\x00i\x00", "utf-16", "utf-16le"), R, "F-C32c"),
+            (C("text/plain; charset=utf-16", "hi"), O("text/plain; charset=utf-16", b"h\x00i\x00", "utf-16", "utf-16le"), R, None),   # no BOM written
+            (C("text/plain; charset=utf-16", "hi"), O("text/plain; charset=utf-16", b"\xff\xfeh\x00i\x00", "utf-16", "utf-16"), R, None),  # reader agrees
+        ]
+        for case, obs, failure, want in T:
+            got = self.known(case, obs, failure)
+            assert got == want, ("known() selftest", case, failure, "expected", want, "got", got)
+
     @staticmethod
     def _decl_in_body(ct, body):
         import re
@@ -375,14 +399,17 @@ class Check(PropertyCheck):
             return None
         # the reader's library answers are taken from the real message produced by the real set_text
         m = self._msg(case["msg"], ct)
-        m.text = text
+        try:
+            m.text = text
+        except Exception:
+            return None                      # the setter raised: the oracle reports it, there is nothing to compare with the model
         c2 = m.headers.get("content-type", "")
         body = m.raw_content
         n1 = nh.infer_content_encoding(c2, body)
         try:
             d = encoding.decode(body, n1)
             decres = "ok:" + cps(d) if isinstance(d, str) else "err"
-        except ValueError:
+        except Exception:                    # ValueError is the documented outcome; anything else is flagged by the oracle ("exc:…")
             decres = "err"
         loose = cps(body.decode("utf8", "surrogateescape"))
         return ["rt %s %s %s %s %s %s %s %s" % ("none" if ct is None else cps(ct), case["text"], cps(n0), encres, u8, cps(n1), decres, loose)]
